@@ -306,8 +306,9 @@ end
 
 inductive StoreKind where
   | perCall                              -- plain function / static / class method / `@pedantic` directly on a method
-  | resetEachAccess                      -- instance of a non-generic `@pedantic_class` class
-  | genericInstance (g : TVMap)          -- `Generic ∈ __bases__`; g from `__orig_class__` ([] when absent, e.g. inside `__init__`)
+  | resetEachAccess                      -- instance of a non-generic `@pedantic_class` class (the accessor installs a fresh dict)
+  | genericInstance (params : List TVId) (g : TVMap)
+      -- `Generic ∈ __bases__`; params = `type(self).__parameters__`; g from `__orig_class__` ([] when absent, e.g. inside `__init__`)
 deriving Repr
 
 inductive Out where
@@ -326,40 +327,60 @@ def failure : R → Option Out
   | .raisedPed => some .pedTypeCheck
   | .raisedOther => some (if catchesAll then .pedTypeCheck else .escape)
 
-def srcMap (fifo g : TVMap) : Src → TVMap
-  | .fifo => fifo
+/-- `{k: v for k, v in old.items() if k in class_params}` -/
+def TVMap.only (m : TVMap) (params : List TVId) : TVMap := m.filter (fun kv => params.contains kv.1)
+
+def srcMap (params : List TVId) (fifo g : TVMap) : Src → TVMap
+  | .fifo => if fifoOnlyClassParams then fifo.only params else fifo
   | .generics => g
   | .self => []                          -- TYPE_VAR_SELF is a key of its own; it never occurs in a modelled annotation
 
 /-- the dict the accessor stores on a generic instance: `{**fifo, **generics, **{Self: cls}}` in the order of the source -/
-def rebuild (fifo g : TVMap) : TVMap :=
-  genericMergeOrder.foldl (fun acc s => acc.merge (srcMap fifo g s)) []
+def rebuild (params : List TVId) (fifo g : TVMap) : TVMap :=
+  genericMergeOrder.foldl (fun acc s => acc.merge (srcMap params fifo g s)) []
 
-/-- the dict one access of `FunctionCall.type_vars` hands to the check: `callMap` is `FunctionCall._type_vars`,
+/-- the dict one resolution of `FunctionCall.type_vars` yields: `callMap` is `FunctionCall._type_vars`,
     `attr` the instance attribute `__pedantic_a42__` -/
 def accessMap (k : StoreKind) (callMap attr : TVMap) : TVMap :=
   match k with
   | .perCall => callMap
   | .resetEachAccess => if instanceAccessorSwitch then (if nonGenericFresh then [] else attr) else callMap
-  | .genericInstance g => if instanceAccessorSwitch then rebuild attr g else callMap
+  | .genericInstance params g => if instanceAccessorSwitch then rebuild params attr g else callMap
 
 def usesAttr (k : StoreKind) : Bool :=
   match k with
   | .perCall => false
   | _ => instanceAccessorSwitch
 
-/-- one `assert_value_matches_type(value, annotation, type_vars=self.type_vars)`: (failure?, callMap', attr') -/
+/-- one `assert_value_matches_type(value, annotation, type_vars=self.type_vars)` when every access resolves the store anew:
+    (failure?, callMap', attr') -/
 def oneCheck (env : Env) (k : StoreKind) (callMap attr : TVMap) (a : A) (v : Val) : Option Out × TVMap × TVMap :=
   let r := isInst env a v (accessMap k callMap attr)
   if usesAttr k then (failure r.1, callMap, r.2) else (failure r.1, r.2, attr)
 
-/-- a call = the parameter checks in order, then the return check; the first failure ends it -/
-def runChecks (env : Env) (k : StoreKind) : List (A × Val) → TVMap → TVMap → Out × TVMap × TVMap
+/-- the store resolved on every access: the parameter checks in order, then the return check; the first failure ends the call -/
+def runChecksPerAccess (env : Env) (k : StoreKind) : List (A × Val) → TVMap → TVMap → Out × TVMap × TVMap
   | [], cm, attr => (.ok, cm, attr)
   | (a, v) :: rest, cm, attr =>
     match oneCheck env k cm attr a v with
     | (some o, cm', attr') => (o, cm', attr')
-    | (none, cm', attr') => runChecks env k rest cm' attr'
+    | (none, cm', attr') => runChecksPerAccess env k rest cm' attr'
+
+/-- the checks of a call with ONE dict handed from check to check -/
+def runFrom (env : Env) : List (A × Val) → TVMap → Out × TVMap
+  | [], m => (.ok, m)
+  | (a, v) :: rest, m =>
+    match failure (isInst env a v m).1 with
+    | some o => (o, (isInst env a v m).2)
+    | none => runFrom env rest (isInst env a v m).2
+
+/-- a call: (outcome, callMap', attr').  With the store resolved once per call the dict of the first access is used for the
+    whole call (every call has at least the return check) and is what the accessor left on the instance. -/
+def runChecks (env : Env) (k : StoreKind) (checks : List (A × Val)) (cm attr : TVMap) : Out × TVMap × TVMap :=
+  if resolveOncePerCall then
+    let r := runFrom env checks (accessMap k cm attr)
+    if usesAttr k then (r.1, cm, r.2) else (r.1, r.2, attr)
+  else runChecksPerAccess env k checks cm attr
 
 /-! ### histories over several instances -/
 
@@ -390,7 +411,7 @@ def attrKey (c : Call) : Nat := if storeOnInstance then c.inst else 0
 
 def runCall (env : Env) (c : Call) (s : Stores) : Out × Stores :=
   match c.kind, c.scanFails with
-  | .genericInstance _, true => (if instanceAccessorSwitch then .pedTVMismatch else (runChecks env c.kind c.checks [] []).1, s)
+  | .genericInstance _ _, true => (if instanceAccessorSwitch then .pedTVMismatch else (runChecks env c.kind c.checks [] []).1, s)
   | _, _ =>
     let cm0 := if perCallFreshMap then [] else s.fns.get c.fn
     let r := runChecks env c.kind c.checks cm0 (s.attrs.get (attrKey c))
